@@ -1,4 +1,5 @@
 import FM.Lemmas.Wrap
+import FM.Lemmas.Sentence
 /-
   C05 — Wrapping is lossless, width-bounded and maximal.
 
@@ -84,5 +85,39 @@ theorem NOWRAP (split : Str → List Word) (text : Str) (W : Int) (c0 c1 : Nat) 
 theorem NOWRAP_le_one (split : Str → List Word) (text : Str) (W : Int) (c0 c1 : Nat) (md : Bool)
     (h : W ≤ 0) : (wrapLines split text W c0 c1 md).length ≤ 1 := by
   rw [NOWRAP split text W c0 c1 md h]; split <;> simp
+
+/-! ### Sentence mode (`line_wrap_by_sentence`) -/
+
+/-- True-column bound of a list of output lines: line 0 starts at `i0`, the others at `s0`. -/
+def SBound (W i0 s0 : Nat) (out : List Line) : Prop :=
+  (∀ l ∈ out.head?, LineOK W i0 l) ∧ ∀ l ∈ out.tail, LineOK W s0 l
+
+/-- S_BOUND at full strength is FALSE of the code and of its model: the merge of a sentence into
+a short last line tests `len(last) + 1 + len(first wrapped line) <= width` without the line's
+indent.  Witness: `- Go on. xxxxxxxxxxxxxxxxxxxxxx efgh ijkl` at width 30 gives a 31-column line.
+(Not repaired: the repository's reference documents pin such lines; see KNOWN_FINDINGS.json.) -/
+theorem S_BOUND_false :
+    ¬ SBound 30 2 2 (foldSent { W := 30, i0 := 2, s0 := 2, minLen := 20, md := false } true []
+      [["Go".toList, "on.".toList],
+       ["xxxxxxxxxxxxxxxxxxxxxx".toList, "efgh".toList, "ijkl".toList]]) := by
+  unfold SBound LineOK; decide
+
+/-- S_BOUND_partial: measured *without* its indent every line is within the width or is a single
+unbreakable word, and no line is empty — for every configuration.  With zero indents this is the
+full bound. -/
+theorem S_BOUND_partial (c : SCfg) : ∀ (ss : List (List Word)) (first : Bool) (lines : List Line),
+    (∀ l ∈ lines, LineOK0 c.W l ∧ l ≠ []) →
+    ∀ l ∈ foldSent c first lines ss, LineOK0 c.W l ∧ l ≠ [] := by
+  intro ss
+  induction ss with
+  | nil => intro first lines h; simpa [foldSent] using h
+  | cons s rest ih =>
+    intro first lines h
+    simp only [foldSent]
+    exact ih false _ (sentStep_ok0 c first lines s h)
+
+theorem S_BOUND_noindent (c : SCfg) (ws : List (Word × Bool)) :
+    ∀ l ∈ wrapBySentence c ws, LineOK0 c.W l ∧ l ≠ [] :=
+  S_BOUND_partial c _ true [] (by simp)
 
 end FM.C05
